@@ -10,12 +10,22 @@ for n in $names; do
   p=${n:0:3}
   grep -q '"status": "neutralised"' /verif/seeded/$n/meta.json 2>/dev/null && { echo "$n: neutralised by a repair, skipped"; continue; }
   git -C /repo apply /verif/seeded/$n/patch.diff || { echo "$n: patch does not apply"; continue; }
+  # seeded/<id>/check_with names further properties whose checks look at the same code (the change is kept under the property
+  # its author was given; another property's check may be the one that decides it)
+  extra=$(cat /verif/seeded/$n/check_with 2>/dev/null)
   for s in 0 1; do
     out=$(VERIF_SEED=$s ./check $p 2>&1); rc=$?
     line=$(echo "$out" | grep "^\[$p\]")
     viol=$(echo "$out" | grep -c "^VIOLATION")
     nofi=$(echo "$out" | grep "^VIOLATION" | grep -c "no-failing-input-found")
     echo "$n seed=$s exit=$rc violations=$viol of-which-no-failing-input=$nofi | $line" | tee -a $tmp
+    for q in $extra; do
+      out=$(VERIF_SEED=$s ./check $q 2>&1); rc=$?
+      line=$(echo "$out" | grep "^\[$q\]")
+      viol=$(echo "$out" | grep -c "^VIOLATION")
+      nofi=$(echo "$out" | grep "^VIOLATION" | grep -c "no-failing-input-found")
+      echo "$n seed=$s:$q exit=$rc violations=$viol of-which-no-failing-input=$nofi | $line" | tee -a $tmp
+    done
   done
   git -C /repo checkout -- .
 done
@@ -30,7 +40,7 @@ p = "/verif/seeded/RESULTS.json"
 if os.path.exists(p):
     res = json.load(open(p))
 for l in open(sys.argv[1]):
-    m = re.match(r"(\S+) seed=(\d) exit=(\d+) violations=(\d+) of-which-no-failing-input=(\d+) \| (.*)", l.strip())
+    m = re.match(r"(\S+) seed=(\d(?::C\d+)?) exit=(\d+) violations=(\d+) of-which-no-failing-input=(\d+) \| (.*)", l.strip())
     if m:
         res.setdefault(m.group(1), {})["seed" + m.group(2)] = {"exit": int(m.group(3)), "violations": int(m.group(4)),
             "no_failing_input": int(m.group(5)), "summary": m.group(6)}
